@@ -13,6 +13,10 @@ class LPoly():
         dmin = minimum power for the polynomial, e.g. 0 or -1 or -4
         '''
         self.coefs = numpy.array(coefs)
+        if self.coefs.dtype.kind in "iub":
+            # fixed-width integer coefficients would wrap around silently in
+            # products and scalar multiples
+            self.coefs = self.coefs.astype(float)
         if len(self.coefs) == 0:
             self.dmin = dmin
             self.iszero = True
